@@ -24,6 +24,15 @@ def main():
         ctx.deadline = time.time() + job["budget_s"]
     status = "ok"
     err = None
+    cov = None
+    if os.environ.get("BVM_COVER"):
+        # diagnostic only (tools/coverage_report.sh): which lines / branches of the repository the workload reaches
+        import coverage
+
+        from .load import REPO
+
+        cov = coverage.Coverage(data_file=os.path.join(os.environ["BVM_COVER"], "cov"), data_suffix=True, branch=True, source=[REPO], config_file=False)
+        cov.start()
     try:
         if job.get("replay") is not None:
             mod.replay(job["replay"], ctx)
@@ -32,6 +41,9 @@ def main():
     except BaseException as e:  # harness failure, not a verdict
         status = "error"
         err = "".join(traceback.format_exception(type(e), e, e.__traceback__))[-4000:]
+    if cov is not None:
+        cov.stop()
+        cov.save()
     res = ctx.result()
     res["status"] = status
     res["error"] = err
